@@ -34,7 +34,11 @@ Record runspec := mk_run {
   r_src : src; r_pre : option (list step); r_post : list step; r_crash : bool; r_mode : Canon.mode;
   r_cfg : option cfg; r_damage : option damage
 }.
-Inductive namespec := NRaw (n : bytes) | NPid (r : nat) (suffix : bytes).
+Inductive namespec :=
+| NRaw (n : bytes)
+| NPid (r : nat) (suffix : bytes)
+(* a valid checkpoint of run r's pipeline id, written by the real save_checkpoint *)
+| NState (r : nat) (ts idx parts total : Z) (ntype mode : bytes) (pc : Z).
 
 Definition dec_policy (j : J) : option Store.policy :=
   match j with
@@ -96,6 +100,13 @@ Definition dec_namespec (j : J) : option namespec :=
   end.
 Definition dec_seed (j : J) : option (namespec * bytes) :=
   match j with
+  | JL [JL [JS t; jr; JI ts]; JL [JI idx; JI parts; JI total; jn; jm; JI pc]] =>
+      if tag_is t "state" then
+        match dec_nat jr, jbytes jn, jbytes jm with
+        | Some r, Some n, Some m => Some (NState r ts idx parts total n m pc, [])
+        | _, _, _ => None
+        end
+      else None
   | JL [jn; jb] => match dec_namespec jn, jbytes jb with Some n, Some b => Some (n, b) | _, _ => None end
   | _ => None
   end.
@@ -328,14 +339,18 @@ Definition model_obs (r : runspec) (o : outcome (list val)) : obs :=
   | _ => obs_of o
   end.
 
-Definition seed_dir (pids : list bytes) (seeds : list (namespec * bytes)) : dir :=
+Definition seed_dir (H : bytes -> bytes) (pids : list bytes) (seeds : list (namespec * bytes)) : dir :=
   fold_left (fun d e =>
                let '(ns, b) := e in
-               let n := match ns with
-                        | NRaw n => n
-                        | NPid r suffix => Store.s_checkpoint_ ++ nth r pids [] ++ [Store.c_us] ++ suffix
-                        end in
-               Store.dir_write d n b) seeds [].
+               match ns with
+               | NRaw n => Store.dir_write d n b
+               | NPid r suffix =>
+                   Store.dir_write d (Store.s_checkpoint_ ++ nth r pids [] ++ [Store.c_us] ++ suffix) b
+               | NState r ts idx parts total ntype mode pc =>
+                   let pid := nth r pids [] in
+                   Store.dir_write d (Store.ckpt_name pid ts)
+                                   (Bincode.encode (mk_state H pid idx ts parts mode total ntype pc))
+               end) seeds [].
 
 Record mstate := mk_ms {
   ms_fs : option dir; ms_damaged : list bytes; ms_prev : option (list centry);
@@ -359,7 +374,7 @@ Definition model_step (H : bytes -> bytes) (st : mstate) (ro : runspec * runobs)
 Definition run_model (H : bytes -> bytes) (seeds : option (list (namespec * bytes)))
            (ros : list (runspec * runobs)) (l0 : option (list centry)) : mstate :=
   let pids := map (fun ro => run_pid H (xmode_of (r_mode (fst ro))) (run_chain (fst ro))) ros in
-  let fs0 := option_map (seed_dir pids) seeds in
+  let fs0 := option_map (seed_dir H pids) seeds in
   fold_left (model_step H)
             ros (mk_ms fs0 [] l0 [] [option_map (mlisting H []) fs0] 0%nat).
 
